@@ -12,6 +12,7 @@ import uuid
 from pathlib import Path
 
 import common
+from packaging.utils import canonicalize_name
 import e2e
 import impl
 
@@ -173,12 +174,12 @@ def parse_reqs(kind, text):
                 s = ln.split("#")[0].strip()
                 if not s or s.startswith("-"):
                     continue
-                out.append(Requirement(s).name.lower())
+                out.append(canonicalize_name(Requirement(s).name))
             return out
         if kind == "pyproject.toml":
             d = tomllib.loads(text)
-            out = [Requirement(x).name.lower() for x in d.get("project", {}).get("dependencies", [])]
-            out += [k.lower() for k in d.get("tool", {}).get("poetry", {}).get("dependencies", {}) if k != "python"]
+            out = [canonicalize_name(Requirement(x).name) for x in d.get("project", {}).get("dependencies", [])]
+            out += [canonicalize_name(k) for k in d.get("tool", {}).get("poetry", {}).get("dependencies", {}) if k != "python"]
             return out
         if kind == "setup.cfg":
             c = configparser.ConfigParser()
@@ -186,12 +187,12 @@ def parse_reqs(kind, text):
             raw = c["options"].get("install_requires", "") if "options" in c else ""
             # setuptools reads install_requires as "list-semi": one requirement per line, or ';'-separated on one line (commas do not separate)
             items = [x.strip() for x in raw.split("\n") if x.strip()] if "\n" in raw.strip() else [x.strip() for x in raw.split(";") if x.strip()]
-            return [Requirement(x).name.lower() for x in items]
+            return [canonicalize_name(Requirement(x).name) for x in items]
         if kind == "setup.py":
             tree = ast.parse(text)
             for n in ast.walk(tree):
                 if isinstance(n, ast.keyword) and n.arg == "install_requires" and isinstance(n.value, ast.List):
-                    return [Requirement(ast.literal_eval(e)).name.lower() for e in n.value.elts]
+                    return [canonicalize_name(Requirement(ast.literal_eval(e)).name) for e in n.value.elts]
             return []
     except (InvalidRequirement, Exception):
         return None
@@ -216,18 +217,19 @@ def cli_case(case):
     root = common.tmpdir("c14")
     try:
         proj = root / "p"
-        files = {"app.py": seeds["pixee:python/use-defusedxml"][0]}
+        cid, pkg = case.get("codemod", "pixee:python/use-defusedxml"), case.get("pkg", "defusedxml")
+        files = {"app.py": seeds[cid][0]}
         for kind, text in case["manifests"]:
             files[kind] = text.encode() if isinstance(text, str) else text
         e2e.write_project(proj, files)
         before = e2e.read_tree(proj)
-        r1 = e2e.run(proj, ["--codemod-include", "pixee:python/use-defusedxml"])
+        r1 = e2e.run(proj, ["--codemod-include", cid])
         mid = e2e.read_tree(proj)
-        r2 = e2e.run(proj, ["--codemod-include", "pixee:python/use-defusedxml"])
+        r2 = e2e.run(proj, ["--codemod-include", cid])
         after2 = e2e.read_tree(proj)
         kinds = [k for k, _ in case["manifests"]]
         out = {"rc": [r1["rc"], r2["rc"]], "changed": [k for k in kinds if before[k] != mid[k]], "second_changed": [k for k in kinds if mid[k] != after2[k]],
-               "manifests": {}, "desc_notice": None, "app_changed": before["app.py"] != mid["app.py"]}
+               "manifests": {}, "desc_notice": None, "app_changed": before["app.py"] != mid["app.py"], "pkg": pkg}
         res = (r1["report"] or {}).get("results", [])
         if res:
             d = res[0]["description"]
@@ -251,6 +253,15 @@ def search(ctx):
     for _ in range(ctx.pick(6, 40)):
         ks = rng.sample(list(e2e.MANIFESTS), rng.randint(2, 4))
         cases.append({"manifests": [(k, rng.choice(e2e.MANIFESTS[k] + EXTRA_MANIFESTS[k])) for k in ks]})
+    # the other dependency adders, with their package already declared under spellings PEP 503 identifies
+    for cid, pkg, spellings in [("pixee:python/flask-enable-csrf-protection", "flask-wtf", ["Flask_WTF", "flask.wtf>=1.0", "FLASK-WTF", "flask-wtf"]),
+                                ("pixee:python/harden-pickle-load", "fickling", ["Fickling", "fickling>=0.1"])]:
+        for kind in e2e.MANIFESTS:
+            cases.append({"manifests": [(kind, rng.choice(e2e.MANIFESTS[kind]))], "codemod": cid, "pkg": pkg})
+        for sp in spellings[: ctx.pick(2, 4)]:
+            cases.append({"manifests": [("requirements.txt", f"requests\n{sp}\n")], "codemod": cid, "pkg": pkg})
+            cases.append({"manifests": [("pyproject.toml", f'[project]\nname = "x"\nversion = "0.1"\ndependencies = [\n  "{sp}",\n  "requests",\n]\n')], "codemod": cid, "pkg": pkg})
+            cases.append({"manifests": [("setup.cfg", f"[options]\ninstall_requires =\n    {sp}\n    requests\n")], "codemod": cid, "pkg": pkg})
     cases.append({"manifests": []})
     # a manifest the parser accepts (chardet) but that is not UTF-8: it cannot be updated and must be left alone
     cases.append({"manifests": [("requirements.txt", "requests\nflask\n".encode("utf-16"))], "expect_untouched": True})
@@ -274,19 +285,20 @@ def search(ctx):
         for k in r["changed"]:
             m = r["manifests"][k]
             layout = "comma" if k == "setup.cfg" and "," in (m["text_before"].split("install_requires", 1) + [""])[1].split("\n")[0] else ("crlf" if "\r\n" in m["text_before"] else "")
-            if k == "setup.cfg" and "requires-dist" in m["text_before"] and "defusedxml" in m["text_after"].split("[options]")[0]:
+            pkg = r["pkg"]
+            if k == "setup.cfg" and "requires-dist" in m["text_before"] and pkg in m["text_after"].split("[options]")[0].lower():
                 fail("cfg-inserted-in-wrong-section", "setup.cfg: the requirement was inserted under [metadata] requires-dist, not into install_requires", layout="first-occurrence")
                 continue
             if m["after"] is None:
                 fail("manifest-invalid-after", f"{k} does not parse after the update:\n{m['text_after'][:300]}", layout=layout)
             elif m["before"] is not None:
                 lost = [x for x in m["before"] if x not in m["after"]]
-                n_new = m["after"].count("defusedxml") - m["before"].count("defusedxml")
+                n_new = m["after"].count(pkg) - m["before"].count(pkg)
                 if lost:
                     fail("requirement-lost", f"{k}: previously declared requirements {lost} are gone", layout=layout)
-                elif n_new != (0 if "defusedxml" in m["before"] else 1):
-                    present = "defusedxml" in m["before"]
-                    fail("already-declared" if present else "new-requirement-count", f"{k}: defusedxml now declared {m['after'].count('defusedxml')} time(s) (before {m['before'].count('defusedxml')})",
+                elif n_new != (0 if pkg in m["before"] else 1):
+                    present = pkg in m["before"]
+                    fail("already-declared" if present else "new-requirement-count", f"{k}: {pkg} now declared {m['after'].count(pkg)} time(s) (before {m['before'].count(pkg)})",
                          layout=layout, spelling="case" if present else "")
             if m["crlf_lost"]:
                 fail("crlf-manifest-rewritten", f"{k}: CRLF line endings rewritten with LF", layout="crlf")
@@ -296,6 +308,6 @@ def search(ctx):
             layout = "comma" if k == "setup.cfg" and "," in (m["text_before"].split("install_requires", 1) + [""])[1].split("\n")[0] else ""
             ctx.fail({"kind": "second-run-adds", "manifest": k, "layout": layout}, f"a second run modified {r['second_changed']} again", rep)
         if not r["changed"] and r["app_changed"]:
-            declared = any("defusedxml" in (r["manifests"][k]["before"] or []) for k in kinds)
+            declared = any(r["pkg"] in (r["manifests"][k]["before"] or []) for k in kinds)
             if not declared and r["desc_notice"] != "could not be added":
                 fail("no-manifest-not-reported", f"no manifest was updated and the description does not say so (notice: {r['desc_notice']})")
